@@ -9,6 +9,8 @@ import (
 	"errors"
 	"fmt"
 	"io"
+	"reflect"
+	"slices"
 
 	"github.com/c2FmZQ/ech"
 
@@ -304,6 +306,9 @@ type Session struct {
 	T   *memnet.Conn
 	C   *ech.Conn
 	buf []byte
+	// CallerKeysModified: the slices handed to WithKeys (sub-slices of one array of the caller, with spare capacity)
+	// did not come back as they were
+	CallerKeysModified bool
 }
 
 // OpenSession feeds the first flight and runs NewConn. The transport is left open
@@ -324,7 +329,14 @@ func OpenSessionSplit(first []byte, keys []ech.Key, split int) (s *Session, err 
 	}()
 	var opts []ech.Option
 	if keys != nil && split >= 0 && split <= len(keys) {
-		opts = append(opts, ech.WithKeys(keys[:split]), ech.WithKeys(keys[split:]))
+		// the caller keeps all its keys in ONE array and passes sub-slices of it (so the first one has spare capacity
+		// that belongs to the caller): [keys[:split]..., sentinel, keys[split:]...]
+		sentinel := ech.Key{Config: []byte("caller-owned"), PrivateKey: []byte("caller-owned")}
+		pool := make([]ech.Key, 0, len(keys)+1)
+		pool = append(append(append(pool, keys[:split]...), sentinel), keys[split:]...)
+		snapshot := slices.Clone(pool)
+		opts = append(opts, ech.WithKeys(pool[:split]), ech.WithKeys(pool[split+1:]))
+		defer func() { s.CallerKeysModified = !reflect.DeepEqual(pool, snapshot) }()
 	} else if keys != nil {
 		opts = append(opts, ech.WithKeys(keys))
 	}
